@@ -60,6 +60,9 @@ type options struct {
 	// pointers of the target the validation of defaults is currently below
 	validating map[uintptr]struct{}
 
+	// how often in a row a primitive was taken as a list of one entry
+	listWraps int
+
 	activeFields *fieldSet
 
 	// cycles counts the cyclic references detected so far. It is shared by
